@@ -45,8 +45,17 @@ def generate(tape, tier="quick"):
         sc["perms"] = [[tape.shuffle(list(range(n))), tape.shuffle(list(range(m)))] for _ in range(5)]
         sc["listing"], sc["link_order"] = list(range(n)), list(range(m))
         return sc
-    sc = gen_e1(tape, tier, allow_delay_push=False, max_sim=4, pull_fanout=False)
+    sc = gen_e1(tape, tier, allow_delay_push=False, max_sim=4, pull_fanout=False, sorted_diamond=(2, 3))
     comps, links = sc["components"], sc["links"]
+    if tape.chance(1, 4):
+        # lockstep: every time-stepped component gets the same start and the same constant step (the smallest
+        # one, so every delay stays sufficient) - components are then tied in time before each update and the
+        # listing order alone decides who goes first
+        ss = [c for c in comps if c["kind"] == "sim"]
+        s0 = min(min(c["steps"]) for c in ss)
+        for c in ss:
+            c["steps"], c["start"] = [s0], 0
+        sc["lockstep"] = True
     # units: producers declare, consumers either take over or ask for a convertible unit
     for c in comps:
         for o in c["outputs"]:
